@@ -47,10 +47,16 @@ class ConsumerCluster(Cluster):
     fetch_count = 0
     fetch_cap = 400
     storm = False
+    cps_mark = 0
 
     def _fetch_body(self, conn, req, forced):
         self.fetch_count += 1
+        if self.fetch_count == self.fetch_cap // 4:
+            self.cps_mark = len(self.world.chooser.cps)
         if self.fetch_count > self.fetch_cap and not self.storm:
+            # the run is reported as a violation; do not branch the search at the hundreds of choice points of the storm
+            del self.world.chooser.cps[self.cps_mark:]
+            self.world.frozen = True
             # far more Fetch requests than any correct run of these scenarios needs (typically the same request in a
             # tight loop without virtual time advancing): end the run, the scenario reports it
             self.storm = True
